@@ -11,5 +11,20 @@ class C18(LoopCheck):
     required_labels = []
 
 
+def _configs(self, tier):
+    out = LoopCheck.configs(self, tier)
+    if tier == "quick":
+        # three particles, coarse tolerance: the minimum-step floor really binds
+        # (the bisection result lies below it) on some paths, at low cost
+        base = [c for c in out if c["name"] == "plain-MiniPCNSMC-adaptive_half-std"][0]
+        c = dict(base)
+        c.update(N=3, tol=0.5, D=2, name="plain-MiniPCNSMC-adaptive_half-N3-tol0.5", split_depth=5)
+        out.append(c)
+    return out
+
+
+C18.configs = _configs
+
+
 if __name__ == "__main__":
     raise SystemExit(main(C18()))
